@@ -418,6 +418,23 @@ func (w *World) enabled() []core.WCmd {
 			anyLog = true
 		}
 	}
+	if p.Bulk > 0 && w.bulkDone && !w.bulkCrashed && w.crashes < p.MaxCrashes {
+		// the round that carries the burst: a crash while its tile uploads are in
+		// flight (after the lock commit), so that a restart has to re-apply the
+		// large staging bundle
+		for _, in := range w.insts {
+			n := 0
+			for _, op := range parked {
+				if op.Inst == in.idx && op.Kind == "up" && strings.HasPrefix(op.Key, "tile/") {
+					n++
+				}
+			}
+			if n >= 4 && in.state == stRunning && !in.dead {
+				add(250, core.Cmd{A: "crash", I: in.idx, L: w.drawSubset(in), S: "bulk"})
+				break
+			}
+		}
+	}
 	if p.Bulk > 0 && !w.bulkDone {
 		for _, in := range w.insts {
 			if in.log != nil && !in.dead && in.state == stRunning && !w.cacheParked(in) && w.instParked(in) == 0 {
@@ -638,6 +655,9 @@ func (w *World) exec(c core.Cmd) bool {
 		in := w.inst(c.I)
 		if in == nil || in.dead || (in.state != stRunning && in.state != stLoading) {
 			return false
+		}
+		if c.S == "bulk" {
+			w.bulkCrashed = true
 		}
 		w.finishCrash(in, c.L)
 		return true
